@@ -34,6 +34,9 @@ type Opened struct {
 	Close  func()
 	Reopen func() (*Opened, error) // a new store object on the same durable state (nil for memory)
 	Path   string
+	// LostAckNext (durable-streams only): the next n appends are committed by the server but answered
+	// with 503, as when the reply is lost on the way back.
+	LostAckNext func(n int)
 }
 
 var (
@@ -59,9 +62,37 @@ func durableURL(chunk int) string {
 	h := dsserver.NewHandler(storage, cfg)
 	mux := http.NewServeMux()
 	mux.Handle("/v1/stream/", http.StripPrefix("/v1/stream/", h))
-	srv := httptest.NewServer(mux)
+	srv := httptest.NewServer(lostAckProxy(mux))
 	dsURL[chunk] = srv.URL + "/v1/stream"
 	return dsURL[chunk]
+}
+
+// lostAck: armed per stream name — the next n append requests (POST) for that stream are carried
+// out by the server, but the client is answered "503 Service Unavailable" (the reply got lost
+// behind a proxy / the server was restarted after committing).
+var lostAck sync.Map // stream name -> *atomic.Int32
+
+func lostAckProxy(next http.Handler) http.Handler {
+	return http.HandlerFunc(func(w http.ResponseWriter, r *http.Request) {
+		if r.Method == http.MethodPost {
+			name := r.URL.Path[strings.LastIndex(r.URL.Path, "/")+1:]
+			if v, ok := lostAck.Load(name); ok && v.(*atomic.Int32).Add(-1) >= 0 {
+				rec := httptest.NewRecorder()
+				next.ServeHTTP(rec, r)
+				if rec.Code >= 200 && rec.Code < 300 {
+					http.Error(w, "verif: reply lost after the append was committed", http.StatusServiceUnavailable)
+					return
+				}
+				for k, vs := range rec.Header() {
+					w.Header()[k] = vs
+				}
+				w.WriteHeader(rec.Code)
+				w.Write(rec.Body.Bytes())
+				return
+			}
+		}
+		next.ServeHTTP(w, r)
+	})
 }
 
 // Kinds lists every configuration name Open understands.
@@ -131,6 +162,9 @@ func Open(kind, scratch string) (*Opened, error) {
 			return nil, err
 		}
 		o := &Opened{Kind: kind, Store: s, Close: func() {}}
+		ctr := &atomic.Int32{}
+		lostAck.Store(name, ctr)
+		o.LostAckNext = func(n int) { ctr.Store(int32(n)) }
 		o.Reopen = func() (*Opened, error) {
 			s2, err := ds.New(base, name)
 			if err != nil {
